@@ -63,6 +63,12 @@ def make_service(rpyc, counts):
                 class Custom(Exception):
                     pass
                 raise Custom(tok, [1, 2])
+            if what == "raise-base":
+                raise GeneratorExit(tok)
+            if what == "raise-base2":
+                class Cancelled(BaseException):
+                    pass
+                raise Cancelled(tok)
             if what == "bad-text":
                 return BAD_TEXT + str(tok)
             if what == "bad-int":
@@ -81,7 +87,7 @@ def make_service(rpyc, counts):
     return Svc
 
 
-OUTCOMES = ["value", "value", "ref", "raise", "mixed", "big", "raise-custom", "bad-text", "bad-int", "bad-tuple", "bad-excarg",
+OUTCOMES = ["value", "value", "ref", "raise", "mixed", "big", "raise-custom", "raise-base", "raise-base2", "bad-text", "bad-int", "bad-tuple", "bad-excarg",
             "bad-excint", "nested"]
 BAD = ("bad-text", "bad-int", "bad-tuple", "bad-excarg", "bad-excint")
 
@@ -166,10 +172,16 @@ def run_one(choices, params):
                     if what != "raise" or e.args != (t,):
                         raise core.Violation("misdelivered", "tok=%d what=%s got KeyError%r" % (t, what, e.args))
                     return
-                except Exception as e:
+                except BaseException as e:
+                    if isinstance(e, (core.SimAbort, core.SimKilled, core.Violation)):
+                        raise
                     if what in BAD:
                         sim.count("c08:unencodable-result")
                         return              # an exception is what the statement promises here
+                    if what == "raise-base" and isinstance(e, GeneratorExit) and e.args == (t,):
+                        return
+                    if what == "raise-base2" and type(e).__name__.endswith("Cancelled") and e.args[0] == t:
+                        return
                     if what == "raise-custom" and type(e).__name__.endswith("Custom"):
                         if e.args[0] != t:
                             raise core.Violation("misdelivered", "tok=%d got Custom%r" % (t, e.args))
